@@ -244,6 +244,59 @@ def run(ctx):
                         ok = True
         ctx.ob("SEEK", "string-seek", ok, f"string cells seek to {det}; must be row_offset + data_offset + stored offset", rb.file, rb.line)
 
+    # every seek of the row and cell readers is absolute and its position a sum (the sub-row stride also multiplies)
+    from ..posrule import seeks_from_start_sum_only
+    from ..prov import derive as _dv, index_of as _ixof
+
+    n_sk = 0
+    if row:
+        n_sk += seeks_from_start_sum_only(ctx, "SEEK", row, "read_row", allow_ops=("Mul", "MulWithOverflow"))
+    if rb:
+        n_sk += seeks_from_start_sum_only(ctx, "SEEK", rb, "read_column")
+    ctx.floor("SEEK", "seeks of read_row / read_column examined", n_sk, 3)
+    if row:
+        rxi = _ixof(row)
+        # the sub-row form is chosen exactly when the row header announces more than one sub-row
+        dec = None
+        for bi_, blk_ in enumerate(row.blocks):
+            t_ = blk_["t"]
+            if t_["k"] == "switch" and not blk_["cleanup"]:
+                r_ = rxi.resolve(t_["a"])
+                if r_[0] == "rv" and r_[1].get("k") == "bin" and r_[1]["op"] in ("Gt", "Ge", "Lt", "Le", "Eq", "Ne") and "row_count" in _dv(rxi, t_["a"]).names:
+                    from ..mir import const_int as _ci
+
+                    ca, cb = _ci(r_[1]["a"]), _ci(r_[1]["b"])
+                    if (ca is None) != (cb is None):
+                        dec = (r_[1]["op"], ca, cb)
+        if dec is None:
+            ctx.fail_closed("SEEK", "read_row: the test on row_header.row_count that selects the sub-row form was not found")
+        else:
+            import operator as _op_
+
+            f_ = {"Gt": _op_.gt, "Ge": _op_.ge, "Lt": _op_.lt, "Le": _op_.le, "Eq": _op_.eq, "Ne": _op_.ne}[dec[0]]
+            ev = lambda v: f_(v, dec[2]) if dec[1] is None else f_(dec[1], v)  # noqa: E731
+            ctx.ob("SEEK", "sub-row-form-selected", ev(1) != ev(2) and ev(2) == ev(3) == ev(65535), f"read_row chooses between the single-row and the sub-row form by `row_count {dec[0]} {dec[2] if dec[1] is None else dec[1]}`; rows with one record and rows with 2.. records must take different forms (1 vs 2, 3, 65535)", row.file, row.line)
+        # every sub-row that is read is part of the result
+        pushes_ = [t_ for _bi, t_ in row.calls() if (t_.get("res") or "").endswith("Vec::<T, A>::push") and len(t_["args"]) == 2 and "ExcelRow" in str((t_["args"][1].get("m") or t_["args"][1].get("c") or {}).get("ty", ""))]
+        ctx.ob("SEEK", "sub-rows-collected", len(pushes_) >= 1, f"read_row pushes {len(pushes_)} ExcelRow value(s) into its result list; each sub-row read must be returned", row.file, row.line)
+    if rb:
+        bxi = _ixof(rb)
+        consts_ = None
+        for _bi, _si, st_ in rb.stmts():
+            rv_ = st_.get("rv") or {}
+            if st_["k"] == "assign" and rv_.get("k") == "agg" and str(rv_.get("adt", "")).endswith("ColumnData") and rv_.get("variant") == "Bool" and rv_.get("ops"):
+                d_ = _dv(bxi, rv_["ops"][0])
+                if "Eq" in d_.ops or "Ne" in d_.ops:
+                    r_ = bxi.resolve(rv_["ops"][0])
+                    if r_[0] == "rv" and r_[1].get("k") == "bin" and r_[1]["op"] in ("Eq", "Ne"):
+                        from ..mir import const_int as _ci2
+
+                        c1, c2 = _ci2(r_[1]["a"]), _ci2(r_[1]["b"])
+                        if (c1 is None) != (c2 is None):  # `(byte & bit) == bit` of the packed-bool cells is judged by CELL's bit tests
+                            consts_ = (r_[1]["op"], c1 if c1 is not None else c2)
+        if consts_ is not None:
+            ctx.ob("CELL", "bool-true-value", consts_ in (("Eq", 1), ("Ne", 0)), f"a Bool cell is decoded as `byte {consts_[0]} {consts_[1]}`; the stored true value is 1 (`== 1` or `!= 0`)", rb.file, rb.line)
+
     # ---- STATELESS: decoding a sub-row depends only on the data, the schema and its offset (no state carried between
     # sub-rows or cells other than the cursor position, which is re-seeked for every cell)
     if rb:
